@@ -25,6 +25,10 @@ pub enum LimitHow {
     PeerLower,
     /// v5: peer's Receive Maximum higher than the configured value
     PeerHigher,
+    /// v5 server: HandshakeAck::max_send above the peer's Receive Maximum (the lower value binds)
+    HandshakeAbovePeer,
+    /// v5 server: HandshakeAck::max_send below the peer's Receive Maximum
+    HandshakeBelowPeer,
 }
 
 #[derive(Clone, Copy, Debug, PartialEq, Eq, Hash, Serialize, Deserialize)]
@@ -214,6 +218,16 @@ pub fn limit_cfg(role: Role, limit: u16, how: LimitHow) -> Cfg {
             cfg.v5.max_send = limit;
             cfg.v5.connect.receive_max = Some(other);
         }
+        (Role::V5Server, LimitHow::HandshakeAbovePeer) => {
+            cfg.v5.max_send = other + 2;
+            cfg.v5.hs = crate::bed::v5::Hs5::Accept { keep_alive: None, max_send: Some(other) };
+            cfg.v5.connect.receive_max = Some(limit);
+        }
+        (Role::V5Server, LimitHow::HandshakeBelowPeer) => {
+            cfg.v5.max_send = other + 2;
+            cfg.v5.hs = crate::bed::v5::Hs5::Accept { keep_alive: None, max_send: Some(limit) };
+            cfg.v5.connect.receive_max = Some(other);
+        }
         (Role::V5Server, LimitHow::Config) => cfg.v5.max_send = limit,
         (Role::V5Client, _) => {
             // the client's send window is the server's Receive Maximum
@@ -388,7 +402,7 @@ impl World {
         }
     }
 
-    fn live_idx(&self, k: u8) -> Option<usize> {
+    pub fn live_idx(&self, k: u8) -> Option<usize> {
         let live: Vec<usize> = self.slots.iter().enumerate().filter(|(_, s)| s.fut.is_some()).map(|(i, _)| i).collect();
         if live.is_empty() { None } else { Some(live[usize::from(k) % live.len()]) }
     }
@@ -763,6 +777,20 @@ impl World {
         }
         let payload: &[u8] = if matches!(p, P5::Publish(_)) { &[7, 7] } else { &[] };
         self.eut.encode(&p, payload)
+    }
+
+    /// supply everything still owed on every live incomplete stream (drives a chunk in progress first)
+    pub async fn finish_streams(&mut self) -> Result<(), Failure> {
+        for _ in 0..4 {
+            let live: Vec<usize> = self.streams.iter().enumerate().filter(|(_, s)| s.live).map(|(i, _)| i).collect();
+            for (k, si) in live.iter().enumerate() {
+                let st = &self.streams[*si];
+                if (st.accepted.len() as u32) < st.declared && !st.aborted {
+                    self.apply(Op::Chunk { stream: k as u8, len: 3 }).await?;
+                }
+            }
+        }
+        Ok(())
     }
 
     pub fn ended(&self) -> bool {
